@@ -79,12 +79,20 @@ def make_check(op):
         by_before = (_snap(bystander.data), _snap(bystander.grad.data))
         before = [_snap(t.data) for t in ts]
         buf_before = _snap(buf) if buf is not None else None
+        nnops.LAST.pop("bn_buffers", None)
         try:
             out = op.apply(ts, args)
         except Exception:  # noqa: BLE001
             rec.skip = "forward_rejected"
             return
         o = ops.pick(out, case)
+        bufs = [b for b in (nnops.LAST.pop("bn_buffers", None) or ()) if b is not None]
+        bufs_after_fwd = [_snap(b.data) for b in bufs]
+        if bufs and not args.get("training", True):
+            want = [np.array(args["rm"], dtype=dt), np.array(args["rv"], dtype=dt)]
+            for b, w in zip(bufs, want):
+                if _snap(b.data) != _snap(w):
+                    raise Violation("buffer_modified", f"an eval-mode forward changed a running statistic; {ctx}")
         reuse = bool(args.get("use")) and len(set(args["use"])) < len(args["use"])
         rec.nontrivial(layout != "independent" or reuse or op.name in INPLACE_KERNELS or case.get("second", False))
         rec.tag(layout, case["dtype"])
@@ -109,7 +117,8 @@ def make_check(op):
                 raise Violation("result_modified", f"the first result changed when the op was called again; {ctx}")
         if not o.requires_grad:
             return
-        g = gen.cyc(case["g"], o.shape, dt)
+        other = np.dtype(np.float32 if dt == np.float64 else np.float64)
+        g = gen.cyc(case["g"], o.shape, other if case.get("gdtype") == "other" else dt)
         gt = Tensor(g)
         g_before = _snap(gt.data)
         try:
@@ -118,6 +127,9 @@ def make_check(op):
             rec.skip = "backward_raised"
             return
         verify("backward")
+        for b, snap in zip(bufs, bufs_after_fwd):
+            if _snap(b.data) != snap:
+                raise Violation("buffer_modified", f"backward changed a batch-norm running statistic; {ctx}")
         if _snap(gt.data) != g_before:
             raise Violation("seed_gradient_modified", f"the upstream gradient passed to backward was modified; {ctx}")
         if _snap(o.data) != out_snap:
